@@ -107,6 +107,10 @@ let dispatch fn args = match fn, args with
                         | CProperties -> "Properties" in
        let items = List.sort_uniq compare (List.map (fun (c, n) -> cat c ^ ":" ^ hex_of_bytes n) l) in
        "ok:" ^ String.concat "," items)
+  | "RemoveEmpty", [lens] ->
+    let ls = List.filter (fun x -> x <> "") (String.split_on_char ',' lens) in
+    let mk n = List.init (int_of_string n) (fun _ -> n_of_int 113) in
+    String.concat "," (List.map (fun c -> string_of_int (List.length c)) (removeEmpty (List.map mk ls)))
   | "Strip", [s] -> hex_of_bytes (strip (bytes_of_hex s))
   | _ -> failwith ("unknown function " ^ fn)
 let () = main dispatch
